@@ -486,7 +486,11 @@ func init() {
 		par := c.xkey(someXKey(c.r, true))
 		ch, _ := par.Child(1)
 		_ = sib
-		c.call(true, func() []interface{} { ch.SetNet(&chaincfg.TestNet); k.SetNet(&chaincfg.TestNet); return []interface{}{k.String()} })
+		c.call(true, func() []interface{} {
+			ch.SetNet(&chaincfg.TestNet)
+			k.SetNet(&chaincfg.TestNet)
+			return []interface{}{k.String()}
+		})
 	})
 	add("bip32.ExtendedKey.Zero", func(c *memCtx) {
 		par := c.xkey(someXKey(c.r, true))
